@@ -7,7 +7,7 @@ use serde::{
 use super::{BoxConstraint, Layout, View, ViewContext, ViewLayout, ViewMutLayout};
 use crate::{
     Cell, CellWrite, Error, Face, FaceDeserializer, Position, Size, TerminalSurface,
-    TerminalSurfaceExt, glyph::GlyphDeserializer, surface::ViewBounds,
+    TerminalSurfaceExt, glyph::GlyphDeserializer, render::CellKind, surface::ViewBounds,
 };
 use std::{collections::HashMap, fmt::Write as _};
 
@@ -190,8 +190,22 @@ impl View for Text {
     ) -> Result<(), Error> {
         let mut size = Size::empty();
         let mut cursor = Position::origin();
-        self.cells.iter().for_each(|cell| {
-            cell.layout(ctx, ct.max.width, self.wraps, &mut size, &mut cursor);
+        self.cells.iter().for_each(|cell| match cell.kind() {
+            // without glyph support fallback characters are written one by one
+            CellKind::Glyph(glyph) if !ctx.has_glyphs() => {
+                glyph.fallback_str().chars().for_each(|c| {
+                    Cell::new_char(cell.face(), c).layout(
+                        ctx,
+                        ct.max.width,
+                        self.wraps,
+                        &mut size,
+                        &mut cursor,
+                    );
+                })
+            }
+            _ => {
+                cell.layout(ctx, ct.max.width, self.wraps, &mut size, &mut cursor);
+            }
         });
         *layout = Layout::new().with_size(ct.clamp(size));
         Ok(())
